@@ -17,7 +17,7 @@ CHECKS = {
    text="All placements of the first session's login (incl. after its CRED_DISP), of the second session's login, of 0-2 stray events and of one cleanup, plus random three-generation histories, at the tracker API and through Auditd.Read; the later generation must be emitted exactly once under its own identity and strays never under a foreign identity.",
    note="Later generations start only after the earlier session's CRED_DISP and login were both delivered.", ref="4 C09"),
  "C16": dict(engine="mon-correlator", cat="exploration", tech="runtime monitor: cleanup cut-offs from real clock readings, behavioural observation of pending halves; thorough adds a real-time run of Auditd.Read",
-   text="All arrival orders of up to N halves of three PIDs with a cleanup pair at every gap and every cut-off between earlier arrivals; whether a pending half survived is observed by delivering the other half. Thorough adds one real-time run of Auditd.Read across its one-minute ticker.",
+   text="All arrival orders of up to N halves of three PIDs with a cleanup pair at every gap and every cut-off between earlier arrivals; whether a pending half survived is observed by delivering the other half. Concurrent programs (second half arrives || cleanup) are explored under the steer scheduler and free-running. The ticker/cut-off wiring of Auditd.Read is exercised in the quick tier at another time scale (monitor rebuilt with go build -overlay, only the interval constant replaced by 2 s) and in the thorough tier in real time across the one-minute ticker.",
    note="Wall clock must not step backwards within a history; the 60-120 s band is unspecified.", ref="4 C16"),
  "C05": dict(engine="mon-sshd", cat="fault_enumeration", tech="sequence monitor over recorder + harness-owned logins channel under the race detector; fault injection at the event write; cancellation in a state-confirmed blocked hand-off",
    text="Every accepted branch x PID tokens: exactly one succeeded event, written before the hand-off (channel empty at every write; logical-clock stamps on an unbuffered channel), one login with the line's PID, the certificate key id (or unknown) and the very pointer that was written. Failure/unrecognised lines never forward. Write failure on every form: error returned wrapping the cause, nothing forwarded. Cancellation before the call and while parked in the hand-off (state confirmed from the goroutine dump): returns, nothing forwarded. Slow correlator: nobody receives for a dwell (1.5 s quick, 12 s thorough) while the context is live - the call must still be blocked and must then deliver.",
